@@ -52,9 +52,9 @@ def build_pipes(cfg, val):
     out = []
     for i, pc in enumerate(cfg["pipes"]):
         n, bits = SHAPES[pc["shape"]]
-        durs = pc.get("durs") or [1] * n
-        mems = pc.get("mems") or [None] * n
-        reads = pc.get("reads") or [0] * n
+        durs = list(pc.get("durs") or []) + [1] * n          # shorter lists are padded with the defaults
+        mems = list(pc.get("mems") or []) + [None] * n
+        reads = list(pc.get("reads") or []) + [0] * n
         segs = []
         for j in range(n):
             d = val(durs[j])
